@@ -23,6 +23,14 @@ overlay() { # sync-shim overlay for C08, generated from the current tree into $1
   .build/mkoverlay "$REPO" overlay/vsync/vsync.go.txt "$1" hap crypto 2>/dev/null || { echo "INFRASTRUCTURE ERROR: overlay generation failed" >&2; exit 2; }
 }
 
+YIELD_PKGS="yield:hap yield:crypto yield:util yield:tlv8 yield:characteristic yield:service yield:accessory yield:db yield:hap/pair yield:hap/http yield:hap/data yield:hap/endpoint yield:crypto/chacha20poly1305 yield:crypto/hkdf yield:crypto/curve25519 yield:event yield:rtp yield:log yield:."
+buildyield() { # the scheduler binary with a scheduling point before every statement of hc's packages → .build/vsched-yield
+  local sc=.scratch/yield.$$; mkdir -p $sc
+  build .build/mkoverlay ./cmd/mkoverlay
+  .build/mkoverlay "$REPO" overlay/vsync/vsync.go.txt $sc/ov $YIELD_PKGS 2>/dev/null || { echo "INFRASTRUCTURE ERROR: yield overlay generation failed" >&2; exit 2; }
+  build .build/vsched-yield ./cmd/vsched -overlay "$sc/ov/overlay.json"; rm -rf $sc
+}
+
 buildsched() { # buildsched <scratchdir> : vsched (+ the -race variant) next to each other
   overlay "$1/ov"
   build "$1/vsched" ./cmd/vsched -overlay "$1/ov/overlay.json"
@@ -40,6 +48,7 @@ case "${1:-}" in
     build .build/vcheck ./cmd/vcheck
     build .build/crashchild ./cmd/crashchild
     mkdir -p .scratch/setup.$$ && buildsched .scratch/setup.$$ && cp .scratch/setup.$$/vsched .build/vsched-pair && rm -rf .scratch/setup.$$
+    buildyield
     [ -x ./setup_extra.sh ] && ./setup_extra.sh
     echo "setup ok"; exit 0;;
   replay)
@@ -48,6 +57,7 @@ case "${1:-}" in
     build .build/crashchild ./cmd/crashchild
     SC=.scratch/pair.$$; mkdir -p $SC; overlay $SC/ov
     build .build/vsched-pair ./cmd/vsched -overlay "$SC/ov/overlay.json"; rm -rf $SC
+    buildyield
     .build/vcheck.$$ replay "$2"; rc=$?; rm -f .build/vcheck.$$; exit $rc;;
   "") echo "usage: run.sh <ID> <quick|thorough> | setup | replay <path>" >&2; exit 2;;
 esac
@@ -60,6 +70,7 @@ if [ "$ID" = C08 ]; then
 fi
 build .build/vcheck.$$ ./cmd/vcheck
 [ "$ID" = C19 ] && build .build/crashchild ./cmd/crashchild
+case "$ID" in C05|C06|C10|C12|C14|C16|C17|C18|C20) buildyield;; esac
 if [ "$ID" = C02 ] || [ "$ID" = C03 ]; then   # the pairing-handler scheduler binary (overlay build), next to vcheck
   SC=.scratch/pair.$$; mkdir -p $SC; overlay $SC/ov
   build .build/vsched-pair ./cmd/vsched -overlay "$SC/ov/overlay.json"; rm -rf $SC
